@@ -92,6 +92,16 @@ register('C16', 'p_tree', 'c16',
          'Theorems in Properties/C16.v; verification walks only (the update and unregistered-Manifest walks are exercised by C03/C10 runs).',
          ORACLE + ['kernel: (st_dev, st_ino) identifies a directory'])
 
+UPD_RULE = ('random consistent trees as for C01, then a prior Manifest state out of {consistent, stale (1-3 of: content same/other size, delete, stray, '
+            'hidden stray, mtime, file/dir symlink, dangling link), absent, unregistered valid/empty/garbage/syntax-error sub-Manifests in three formats}; ')
+register('C03', 'p_update', 'c03',
+         UPD_RULE + 'hash sets {SHA1; SHA256+SHA512; BLAKE2B+SHA512; MD5+SHA1+SHA3_256}, sort on/off, watermark {none, 0, 60, 200, 100000}, '
+         'format {none, gz, bz2, xz, lzma}, forced save, whole-tree and sub-directory updates, a second update round; ops: update, save, list files, '
+         'fresh loader, verify; pinned scandir orders; non-trivial = distinct (files, manifests, mutations, ops)',
+         'Theorems in Properties/C03.v (per-entry refresh rule); the whole-tree behaviour is tied to /repo by running both on the same abstract tree; on the '
+         'implementation result an independent oracle (tools/corr/oracle_exact.py, no gemato code) checks exactness and the fresh verification must succeed.',
+         ORACLE + ['kernel: the scratch tree behaves like the inode-graph model incl. open(..., "w") / rename / unlink'])
+
 # ---- MANIFEST metadata per claimed property ------------------------------------------------
 NOT_APPLICABLE = {}
 META = {
@@ -165,6 +175,13 @@ META = {
               'identity is recorded for an ancestor raises the symlink-loop error and a directory/file on another device raises the cross-device error, whatever the handler answers. '
               'Which links lead back to an ancestor, "unless under an IGNOREd path", and the update/unregistered walks are compared on enumerated graphs (with an independent cycle oracle).',
    level_note='About Model/Loader.v walk_verify; termination of the real os.walk is covered by a 20 s watchdog per run; the kernel identity law (st_dev, st_ino) is assumed.'),
+ 'C03': dict(engine='coq+tree', design_ref='DESIGN.md section 5 C03',
+   technique='Coq theorems about the entry refresh and the save step + differential update/save/re-verify runs with an independent exactness oracle',
+   level_text='Proved in Coq for all inputs: an entry refreshed by the update carries the size and the digests computed from the present content for exactly the requested '
+              'hash set, a vanished file is an error (C03_refresh_true_partial, C03_vanished_is_error). PARTIAL: the whole-tree statement (exactly one entry per file, '
+              'parents reference rewritten children with their true digests, a fresh verification succeeds, whatever the prior Manifest state) is decided on generated '
+              'trees by running model and /repo and checking the result with an independent exactness oracle and a fresh verification.',
+   level_note='About Model/{Verify,Update}.v; the executable update/save model is the reference for disagreements; known findings D8, D11, D12 (unrepaired defects) are matched structurally.'),
  'C09': dict(engine='coq+text', design_ref='DESIGN.md section 5 C09',
    technique='Coq theorems (totality of the parser result type by induction over lines; per-class rejection lemmas) + differential runs',
    level_text='Proved in Coq for every text: load returns entries, ManifestSyntaxError or ManifestUnsignedData and nothing else; accepted entries '
